@@ -174,6 +174,11 @@ def check(rep):
                       "Differential(early).at.component", "Differential.component_at"):
             for var in (vs[:1] + ["not_there"]):
                 cases.append(("route", t, {**full, "extra1": 7}, (route, var), "no-CoordinateMissing"))
+                # ... and on every derivative route an occurring variable without coordinate -- whether or not
+                # it is the differentiation variable -- must not yield a number
+                for missing in vs:
+                    cases.append(("route", t, {**{v: values[v] for v in vs if v != missing}, "extra1": 7},
+                                  (route, var), "not-a-number"))
     literals = [s for s in source_literals(model) if s not in LEGAL_NAMES]
     members = [s for s in member_names(model) if s not in LEGAL_NAMES and s not in literals]
     rep.extra["names_taken_from_class_members"] = len(members)
@@ -217,7 +222,8 @@ def check(rep):
             elif want == "not-a-number":
                 if r["outcome"] == "return":
                     rep.violation(rule, construct, "",
-                                  f"{desc}: an occurring variable has no coordinate but evaluation returned {r['value']}",
+                                  f"{desc}" + (f" via {extra[0]} w.r.t. {extra[1]}" if kind == "route" else "")
+                                  + f": an occurring variable has no coordinate but the query returned {r['value']}",
                                   witness_class="number without coordinate")
                     ok = False
             elif want in ("accept", "reject"):
